@@ -709,8 +709,17 @@ func (ls *LState) where(level int, skipg bool) string {
 	} else if skipg {
 		return ls.where(level+1, skipg)
 	}
+	_ = sourcename
+	return ls.whereFrame(cf)
+}
+
+// whereFrame is the "source:line:" position of one call frame.
+func (ls *LState) whereFrame(cf *callFrame) string {
+	proto := cf.Fn.Proto
+	sourcename := "[G]"
 	line := ""
 	if proto != nil {
+		sourcename = proto.SourceName
 		if cf.Pc > 0 && cf.Pc <= len(proto.DbgSourcePositions) {
 			line = fmt.Sprintf("%v:", proto.DbgSourcePositions[cf.Pc-1])
 		} else {
@@ -724,20 +733,16 @@ func (ls *LState) where(level int, skipg bool) string {
 func (ls *LState) stackTrace(level int) string {
 	buf := []string{}
 	header := "stack traceback:"
-	if ls.currentFrame != nil {
-		i := 0
-		for dbg, ok := ls.GetStack(i); ok; dbg, ok = ls.GetStack(i) {
-			cf := dbg.frame
-			buf = append(buf, fmt.Sprintf("\t%v in %v", ls.Where(i), ls.formattedFrameFuncName(cf)))
-			if !cf.Fn.IsG && cf.TailCall > 0 {
-				// a long traceback keeps its first and last 7 lines only: of the
-				// identical lines of one frame's tail calls 20 are as good as all
-				for tc := intMin(cf.TailCall, 20); tc > 0; tc-- {
-					buf = append(buf, "\t(tailcall): ?")
-				}
-				i += cf.TailCall
+	// one walk over the frames (GetStack(i) for every level i would walk the chain again each time:
+	// quadratic in the depth of a deep recursion)
+	for cf := ls.currentFrame; cf != nil; cf = cf.Parent {
+		buf = append(buf, fmt.Sprintf("\t%v in %v", ls.whereFrame(cf), ls.formattedFrameFuncName(cf)))
+		if !cf.Fn.IsG && cf.TailCall > 0 {
+			// a long traceback keeps its first and last 7 lines only: of the
+			// identical lines of one frame's tail calls 20 are as good as all
+			for tc := intMin(cf.TailCall, 20); tc > 0; tc-- {
+				buf = append(buf, "\t(tailcall): ?")
 			}
-			i++
 		}
 	}
 	buf = append(buf, fmt.Sprintf("\t%v: %v", "[G]", "?"))
